@@ -375,6 +375,7 @@ def stepDriver (d : DSt) (op implObs : String) : DSt × String × List String :=
       -- C17: a connection whose handshake failed must be closed, not kept
       let c17hs := if toks.headD "" = "peer" && implVerdict = "refused" then ["C17 failed-handshake-socket-left-open"] else []
       let viol := afErrs ++ oracles s st2 impl d.implDials ++ finalOracle st2 op impl ++ c17hs ++ errs.map (fun e => "C09 picker-choice-inadmissible " ++ e.replace " " "_")
+        ++ errs.map (fun e => "C10 download-progress-diverged " ++ e.replace " " "_")
         ++ errsI.map (fun e => "C13 metadata-download-inadmissible " ++ e.replace " " "_")
       let implDials := (((impl.find? fun (k, _) => k = "dials").bind fun (_, x) => x.toNat?)).getD d.implDials
       ({ s := some st2, parked := parked, implDials := implDials, knownPeers := known }, renderObs st2 r.verdict outs1 impl dlTok, viol)
